@@ -20,6 +20,13 @@ class Other {
   ~Other() { --counters.other_live; magic = 0; }
   int get() const { return magic == 0x07e ? 7 : -777; }
 };
+// same class name in two namespaces; a destructor run on an object of the other class stops the program (exit 7)
+void wrong_destructor(const char *which);
+namespace alpha { class Item { public: int magic; Item() : magic(0xa1fa) {} ~Item() { if (magic != 0xa1fa) wrong_destructor("alpha::Item"); magic = 0; }
+                                int get() const { return magic == 0xa1fa ? 1 : -777; } }; }
+namespace beta { class Item { public: int magic; double pad[4]; Item() : magic(0xbe7a) {} ~Item() { if (magic != 0xbe7a) wrong_destructor("beta::Item"); magic = 0; }
+                               int get() const { return magic == 0xbe7a ? 2 : -777; } };
+                 Item *makeItem(); }
 Obj *make(int v);
 Obj *borrow(int i);
 Other *makeOther();
